@@ -526,12 +526,14 @@ func c10FileSweep(ctx *core.Ctx, idx int, res *core.Result, c c10Cell) {
 	for _, j := range r.Perm(len(c10F)) {
 		d := c
 		d.f = j
+		// the files of one run (one directory) are of different packages, too
+		d.fpkg = r.Intn(len(c10FPkg))
 		cells = append(cells, d)
 		srcs = append(srcs, d.file())
 	}
 	runs := [][]engineRun{applyAPI(pt, srcs)}
 	names := []string{"api"}
-	if idx%12 == 0 {
+	if idx%6 == 0 {
 		cr, _ := applyCLI(ctx, pt, srcs)
 		if len(cr) == len(srcs) {
 			runs = append(runs, cr)
